@@ -34,7 +34,9 @@ MatVerdict(c, logged, want, I) ==
     IF DOMAIN logged # I \/ \E i \in I : DOMAIN logged[i] # I THEN Fail(c \o ".shape", <<>>, QZ)
     ELSE LET bad == {p \in I \X I : logged[p[1]][p[2]] # want[p[1]][p[2]]} IN
          IF bad = {} THEN Accept
-         ELSE LET p == CHOOSE p \in bad : TRUE IN Fail(c, p, want[p[1]][p[2]])
+         ELSE LET diag == {p \in bad : p[1] = p[2]}                         \* report a wrong variance in preference to a wrong covariance
+                  p == IF diag # {} THEN CHOOSE p \in diag : TRUE ELSE CHOOSE p \in bad : TRUE
+              IN Fail(c, p, want[p[1]][p[2]])
 First(a, b) == IF a.clause # "ACCEPT" THEN a ELSE b
 
 Init == /\ tid \in 1..Len(Traces)
@@ -56,7 +58,8 @@ PredictVerdict(s) ==
        ELSE Bind(CondW(mdl.cov, A, OrdOf(T.nodes, O)), LAMBDA W :
             LET rowv == [r \in 1..Len(s.rows) |-> VecVerdict("predict.mean", s.mean[r], CondMean(mdl.mu, W, A, O, s.rows[r]), A)]
                 badrows == {r \in 1..Len(s.rows) : rowv[r].clause # "ACCEPT"}
-            IN IF badrows # {} THEN rowv[CHOOSE r \in badrows : \A r2 \in badrows : r <= r2]
+            IN IF badrows # {}
+               THEN LET r == CHOOSE r \in badrows : \A r2 \in badrows : r <= r2 IN [rowv[r] EXCEPT !.at = Append(@, r)]   \* <<variable, row>>
                ELSE MatVerdict("predict.cov", s.cov, CondCov(mdl.cov, W, A, O), A))
 
 StepJoint == /\ l >= 1 /\ l <= Len(T.steps) /\ T.steps[l].ev = "joint"
